@@ -10,7 +10,7 @@
 //!         two early exits — for every a the first b with the same number of items but other cores and the first b
 //!         with another number of items
 //!   `P <kind> <hexsrc>`                                 build the grammar's StateGraph and report, besides the usual grammar and
-//!         automaton dump (G P … N C K E …), the trace recorded by the cfg(grmtools_verif) hook in pager_stategraph
+//!         automaton dump (G P … N C K E A T …), `X none` | `X <sr> <rr>` (conflicts), the trace recorded by the cfg(grmtools_verif) hook in pager_stategraph
 //!         (`lrtable::verif_pager_trace_enable` / `verif_take_pager_trace`; recording is on only around this build): one section `TR <state_i> p d p d …` per iteration of its main loop =
 //!         the state processed and the keys of its closed item set in the order the hash map yielded them
 //! result: one probe record per probe, ` ## `-separated, each
@@ -181,6 +181,10 @@ fn main() {
             let mut o = dump_grammar(&b.grm);
             o.push_str(" # ");
             o.push_str(&dump_automaton(&b.grm, &b.sg, &b.st));
+            match b.st.conflicts() {
+                None => o.push_str(" # X none"),
+                Some(c) => write!(o, " # X {} {}", c.sr_len(), c.rr_len()).unwrap(),
+            }
             for (st, keys) in trace {
                 write!(o, " # TR {}", st).unwrap();
                 for (p, d) in keys {
